@@ -42,6 +42,14 @@ def setup(wd):
     XSH.aliases["fa"] = fa
     XSH.aliases["ra"] = ra
     XSH.aliases["xa"] = xa
+    from xonsh.tools import unthreadable
+
+    @unthreadable
+    def ua(args, stdin=None, stdout=None, stderr=None):
+        print("unthreaded alias", file=stdout)
+        return 0
+
+    XSH.aliases["ua"] = ua
     XSH.env["XONSH_SUBPROC_RAISE_ERROR"] = False
     XSH.env["XONSH_SUBPROC_CMD_RAISE_ERROR"] = False
     XSH.env["XONSH_SHOW_TRACEBACK"] = False
@@ -51,7 +59,11 @@ def setup(wd):
     XSH.env["PWD"] = wd
     # the handlers the session starts with: what every command has to put back
     pristine = [signal.getsignal(getattr(signal, s)) for s in SIGS]
-    return {"XSH": XSH, "wd": wd, "pristine": pristine}
+    # the session as it is before any command has run: a command that damages it on its *first* run (and
+    # every time after) shows against this, not against a snapshot taken after a warm-up run
+    base = snapshot(XSH)
+    saved_std = {fd: os.dup(fd) for fd in (0, 1, 2) if fd in fd_table()}
+    return {"XSH": XSH, "wd": wd, "pristine": pristine, "base_fdfiles": [list(x) for x in fd_table_files()], "base_env": base["env"], "base_environ": base["environ"], "saved_std": saved_std}
 
 
 def render(scn):
@@ -60,7 +72,9 @@ def render(scn):
     parts = []
     for k, kind in enumerate(kinds, 1):
         first, last = k == 1, k == n
-        if fault == "not_found" and at == k:
+        if kind == "ualias":
+            cmd = "ua"
+        elif fault == "not_found" and at == k:
             cmd = "nosuchcmd_verif_%d arg" % k
         elif fault == "alias_raises" and at == k:
             cmd = "ra"
@@ -81,6 +95,9 @@ def render(scn):
             cmd += " < /nonexistent_verif_input_file"
         elif first and scn.get("infile"):
             cmd = ("cat" if kind == "proc" else "fa") + " < in.txt"
+        if fault == "redirect_conflict" and at == k:
+            # two redirections of the same stream: refused with an error before anything runs
+            cmd += [" > out.txt o>e", " > out.txt > out2.txt", " e> err.txt e>o", " a> out.txt o> out2.txt"][scn.get("variant", 0) % 4]
         if scn.get("redirect") == k:
             target = "/nonexistent_dir_verif/out.txt" if (fault == "redirect_unopenable" and at == k) else scn.get("rtarget", "out.txt")
             cmd += f" {scn.get('rop', '>')} {target}"
@@ -133,6 +150,10 @@ def fd_table():
             continue  # the descriptor of the listing itself
         table[int(fd)] = target
     return table
+
+
+def fd_table_files():
+    return sorted((fd, t) for fd, t in fd_table().items() if not t.startswith(("pipe:", "socket:", "anon_inode:")))
 
 
 def fd_classes(table):
@@ -241,7 +262,11 @@ def run(ctx, scn):
         return {"scn": scn, "src": src, "steps": [{"cmd": "run", "obs": obs}], "hang": True}
     before = settle(XSH, snapshot(XSH), limit=1.0)
     before = snapshot(XSH)
-    excs = [run_once(XSH, src) for _ in range(scn.get("repeat", 3))]
+    excs = []
+    for _ in range(scn.get("repeat", 3)):
+        excs.append(run_once(XSH, src))
+        if excs[-1] == "HANG":
+            break  # (advisory, see below: a run that exceeded the limit is not repeated)
     after = settle(XSH, before)
     # only growth counts: a helper thread of the warm-up that was still finishing when `before` was taken
     # is not a leak of the measured runs
@@ -269,6 +294,21 @@ def run(ctx, scn):
         if before[k] != after[k]:
             keys = set(before[k]) | set(after[k])
             diff[k] = {x: [before[k].get(x), after[k].get(x)] for x in sorted(keys) if before[k].get(x) != after[k].get(x)}
+    # against the session before any command ran: session descriptors lost, environment entries that stay behind
+    now_files = fd_table_files()
+    now_set = {(fd, t) for fd, t in now_files}
+    lost0 = [[fd, t] for fd, t in ctx["base_fdfiles"] if (fd, t) not in now_set and fd in ctx["saved_std"]]
+    if lost0:
+        diff["fds_lost"] = diff.get("fds_lost", []) + lost0
+        for fd, _t in lost0:
+            os.dup2(ctx["saved_std"][fd], fd)  # put it back: the next scenario starts with a whole session again
+    # alias bookkeeping (`__ALIAS_STACK`, `__ALIAS_NAME`) is swapped in for the duration of an alias call: once
+    # every helper thread has ended none of it may still be visible in the session environment
+    if "threads" not in diff:
+        for x in list(XSH.env):
+            if x.startswith("__ALIAS") and x not in ctx["base_env"]:
+                diff.setdefault("env_left_behind", {})[x] = [None, str(XSH.env.get(x))]
+                del XSH.env[x]
     # the handlers must be the ones the session started with (not merely the same as after the warm-up)
     now_handlers = [signal.getsignal(getattr(signal, s)) for s in SIGS]
     for sname, h0, h1 in zip(SIGS, ctx["pristine"], now_handlers):
@@ -287,6 +327,9 @@ def run(ctx, scn):
     # Verdict-bearing: descriptors, running children, cwd, environment, Ctrl-C - deterministic after settling.
     # Advisory only (timing-dependent without full schedule control, see DESIGN.md 2.4): helper threads still
     # alive, sys.std* swapped by overlapping alias threads, a run exceeding the time limit, stale handlers, zombies.
+    # repeating a command that succeeds cannot start to fail (a session wedged by its own bookkeeping)
+    if scn["fault"] == "none" and any(e not in ("", "HANG") for e in excs):
+        diff["raised_on_repeat"] = [exc0] + excs
     diagnostics = {k: diff.pop(k) for k in ("handlers", "zombies", "threads", "std") if k in diff}
     if any(e == "HANG" for e in excs):
         diagnostics["hang"] = excs.count("HANG")
